@@ -119,7 +119,12 @@ fn exec_laws(sc: &Scenario) -> Report {
             let at = format!("op#{i} {}", op.short());
             match op.k.as_str() {
                 "gap" => {
-                    sched::advance_quiet(op.n0());
+                    if op.n1() == 1 {
+                        let _ = call(|| pb.suspend(|| sched::advance_quiet(op.n0())));
+                        r.probe("gaps_inside_suspend");
+                    } else {
+                        sched::advance_quiet(op.n0());
+                    }
                     continue;
                 }
                 "update" => {
@@ -300,6 +305,27 @@ fn exec_laws(sc: &Scenario) -> Report {
     finish_report(res, out)
 }
 
+/// A seekable "stream" that is nothing but an offset (its length is set from outside)
+struct FakeSeek {
+    pos: u64,
+    len: std::rc::Rc<std::cell::Cell<u64>>,
+}
+impl std::io::Read for FakeSeek {
+    fn read(&mut self, _buf: &mut [u8]) -> std::io::Result<usize> {
+        Ok(0)
+    }
+}
+impl std::io::Seek for FakeSeek {
+    fn seek(&mut self, f: std::io::SeekFrom) -> std::io::Result<u64> {
+        self.pos = match f {
+            std::io::SeekFrom::Start(p) => p,
+            std::io::SeekFrom::Current(d) => self.pos.wrapping_add(d as u64),
+            std::io::SeekFrom::End(d) => self.len.get().wrapping_add(d as u64),
+        };
+        Ok(self.pos)
+    }
+}
+
 fn exec_steady(sc: &Scenario) -> Report {
     let sc2 = sc.clone();
     let (res, out) = World::run(Config::sequential(sc.seed), move || {
@@ -329,7 +355,11 @@ fn exec_steady(sc: &Scenario) -> Report {
         } else {
             pb
         };
-        let via_update = sc.c("via_update") == 1;
+        // how a position reaches the bar: 0 set_position + tick, 1 update(closure), 2 inc + tick,
+        // 3 a seek through the io adaptor (Start / Current / End in turn) + tick
+        let via = sc.c("via_update");
+        let seek_len = std::rc::Rc::new(std::cell::Cell::new(0u64));
+        let mut seeker = pb.wrap_read(FakeSeek { pos: 0, len: seek_len.clone() });
         let near_len = sc.c("near_len") == 1;
         if sc.c("base_pos") > 0 && sc.c("base_builder") == 0 {
             sched::advance_quiet(1_000_000);
@@ -358,7 +388,16 @@ fn exec_steady(sc: &Scenario) -> Report {
                     // whole milliseconds (a multiple of m when the rate is one step per m ms)
                     // (at most ~10 days per gap: the virtual clock is 64 bit nanoseconds)
                     let ms = if k > 0 { op.n0().max(1) } else { (op.n0().max(1) % (864_000_000 / m).max(1)).max(1) * m };
-                    sched::advance_quiet(ms * unit);
+                    if op.n1() == 1 {
+                        // the time passes inside the closure of suspend(): it is time all the same
+                        if let Err(e) = call(|| pb.suspend(|| sched::advance_quiet(ms * unit))) {
+                            r.violate("C09.no_panic", format!("{at}: suspend panicked: {e}"));
+                            break;
+                        }
+                        r.probe("gaps_inside_suspend");
+                    } else {
+                        sched::advance_quiet(ms * unit);
+                    }
                     let el_ms = (sched::clock_ns() - base_ns) / unit;
                     let p = base_pos + if k > 0 { el_ms * k } else { el_ms / m };
                     // optionally the end is always near: the length stays a few hundred steps
@@ -368,11 +407,32 @@ fn exec_steady(sc: &Scenario) -> Report {
                     if near_len {
                         let _ = call(|| pb.set_length(p.saturating_add(slack)));
                     }
-                    if let Err(e) = call(|| {
-                        if via_update {
-                            // the closure API stores the position; update() ticks
-                            pb.update(|s| s.set_pos(p));
-                        } else {
+                    if let Err(e) = call(|| match via {
+                        // the closure API stores the position; update() ticks
+                        1 => pb.update(|s| s.set_pos(p)),
+                        2 => {
+                            pb.inc(p.wrapping_sub(pb.position()));
+                            pb.tick();
+                        }
+                        3 => {
+                            use std::io::Seek;
+                            let cur = pb.position();
+                            let d = p.wrapping_sub(cur);
+                            let how = match i % 3 {
+                                1 if d <= i64::MAX as u64 => std::io::SeekFrom::Current(d as i64),
+                                2 => {
+                                    // the stream ends a few bytes behind the target
+                                    let back = (i as u64 * 7) % 1000;
+                                    seek_len.set(p.saturating_add(back));
+                                    std::io::SeekFrom::End(-((seek_len.get() - p) as i64))
+                                }
+                                _ => std::io::SeekFrom::Start(p),
+                            };
+                            let got = seeker.seek(how).unwrap();
+                            assert_eq!(got, p, "harness: FakeSeek landed elsewhere");
+                            pb.tick();
+                        }
+                        _ => {
                             pb.set_position(p);
                             pb.tick();
                         }
@@ -646,7 +706,8 @@ fn gen_history(rng: &mut Rng, n: u64, with_resets: bool) -> Vec<Op> {
             2 => rng.range(1, 50) * 1_000_000,
             _ => log_uniform(rng, 1e6, 2.6e14),
         };
-        ops.push(Op::new("gap").n(gap));
+        // (one gap in eight passes inside the closure of ProgressBar::suspend)
+        ops.push(Op::new("gap").n(gap).n(rng.chance(1, 8) as u64));
         match rng.below(20) {
             0 if with_resets => ops.push(Op::new("reset_eta")),
             1 if with_resets => ops.push(Op::new("reset_elapsed")),
@@ -681,7 +742,7 @@ impl Check for C09 {
         "C09"
     }
     fn rule_text(&self) -> String {
-        "laws: 1..60 updates (gap, position) with gaps log-uniform 1 ms..3 days plus exact cadences, positions up to 1e15, reset_eta/reset_elapsed/reset/backwards seeks/set_length/finish/abandon at random places, bars built with_elapsed, queries at update instants and during stalls; checked: per_sec finite and >= 0 and eta/duration well formed at every instant strictly after creation or the last reset, per_sec <= largest sample rate since the last reset (an abandoned bar: <= the largest sample rate since creation unless the bar was told to forget), successive stall queries non-increasing, eta == remaining/per_sec (0 when finished / unknown length / no progress), duration == elapsed + eta, all at one frozen instant. steady (in one run out of three the length is kept 1..3000 steps ahead of the position, also far above 2^53, and eta == remaining/per_sec is checked there as well): every update lies exactly on p = p0 + r (t - t0) (k steps per ms with whole-ms gaps, or one step per m ms with gaps multiple of m; in one run out of four the unit is the microsecond, so that updates come closer together than 1 ms) with irregular cadence => |per_sec - r| <= 1e-7 r at every update. twins: two bars with different pre-histories are synchronised (same position at the same instant: recorded by both estimators; or - before reset() - not at all; or - before reset_eta - reached by one of them through a position update its estimator never saw because the position rate limiter skipped the tick), forget (reset_eta / reset / backwards seek, one seek in three through `with_position` on a clone) and get the same post-history => bit-identical per_sec and eta. ticked: a bar (hidden or visible) under a steady ticker of 1/10/50 ms is moved along a line by set_position only (with a ticker installed position calls do not feed the estimator: the ticker does); after 20 ticks and 20 steps per_sec must lie within 50 % of the true rate. The oracle states laws only: a different estimator that satisfies them passes. Non-trivial: laws = >= 2 recorded samples; steady = >= 2 updates; twins = >= 2 post operations. Distinct = distinct scenario hash.".into()
+        "laws: 1..60 updates (gap, position; one gap in eight passes inside the closure of suspend()) with gaps log-uniform 1 ms..3 days plus exact cadences, positions up to 1e15, reset_eta/reset_elapsed/reset/backwards seeks/set_length/finish/abandon at random places, bars built with_elapsed, queries at update instants and during stalls; checked: per_sec finite and >= 0 and eta/duration well formed at every instant strictly after creation or the last reset, per_sec <= largest sample rate since the last reset (an abandoned bar: <= the largest sample rate since creation unless the bar was told to forget), successive stall queries non-increasing, eta == remaining/per_sec (0 when finished / unknown length / no progress), duration == elapsed + eta, all at one frozen instant. steady (in one run out of three the length is kept 1..3000 steps ahead of the position, also far above 2^53, and eta == remaining/per_sec is checked there as well): every update lies exactly on p = p0 + r (t - t0) (k steps per ms with whole-ms gaps, or one step per m ms with gaps multiple of m; in one run out of four the unit is the microsecond, so that updates come closer together than 1 ms) with irregular cadence => |per_sec - r| <= 1e-7 r at every update; the position reaches the bar by set_position + tick, by update(closure), by inc + tick, or by a seek through the io adaptor (SeekFrom::Start / Current / End in turn over an offset-only stream) + tick, and one gap in eight passes inside the closure of suspend(). twins: two bars with different pre-histories are synchronised (same position at the same instant: recorded by both estimators; or - before reset() - not at all; or - before reset_eta - reached by one of them through a position update its estimator never saw because the position rate limiter skipped the tick), forget (reset_eta / reset / backwards seek, one seek in three through `with_position` on a clone) and get the same post-history => bit-identical per_sec and eta. ticked: a bar (hidden or visible) under a steady ticker of 1/10/50 ms is moved along a line by set_position only (with a ticker installed position calls do not feed the estimator: the ticker does); after 20 ticks and 20 steps per_sec must lie within 50 % of the true rate. The oracle states laws only: a different estimator that satisfies them passes. Non-trivial: laws = >= 2 recorded samples; steady = >= 2 updates; twins = >= 2 post operations. Distinct = distinct scenario hash.".into()
     }
     fn assumptions(&self) -> Vec<String> {
         vec![
@@ -765,7 +826,7 @@ impl Check for C09 {
                     sc.set("unit_ns", 1_000);
                 }
                 sc.set("base_builder", *rng.pick(&[0, 0, 0, 1, 1, 2]));
-                sc.set("via_update", rng.chance(1, 4) as u64);
+                sc.set("via_update", rng.weighted(&[5, 2, 1, 2]) as u64);
                 sc.set("near_len", rng.chance(1, 3) as u64);
                 if rng.chance(1, 2) {
                     sc.set("steps_per_ms", *rng.pick(&[1, 2, 7, 1000, 1_000_000]));
@@ -783,7 +844,7 @@ impl Check for C09 {
                         4 => rng.range(1, 86_400_000),
                         _ => *rng.pick(&[15_000, 16, 17, 5, 250]),
                     };
-                    ops.push(Op::new("gap_ms").n(g));
+                    ops.push(Op::new("gap_ms").n(g).n(rng.chance(1, 8) as u64));
                     if rng.chance(1, 15) {
                         ops.push(Op::new("reset_eta"));
                     }
